@@ -21,3 +21,14 @@ func VerifAtofHex(s []byte, mantissa uint64, exp int, neg, trunc bool) (float64,
 }
 
 func VerifPow10Table() []float64 { return float64pow10 }
+
+// VerifRoundedInteger builds a decimal from its digits, decimal point and trunc flag and returns
+// RoundedInteger() together with shouldRoundUp(a, a.dp).
+func VerifRoundedInteger(digits []byte, dp int, trunc bool) (uint64, bool) {
+	var a decimal
+	a.nd = copy(a.d[:], digits)
+	a.dp = dp
+	a.trunc = trunc
+	up := shouldRoundUp(&a, a.dp)
+	return a.RoundedInteger(), up
+}
